@@ -213,11 +213,18 @@ def q_pushes_literals(F, cg, rep):
             c = mir.callee(t) or ""
             if re.search(r"ZervSchema::(push_|set_)(core|extra_core|build)$", c):
                 n += 1
-                for o in mir.trace_op(g, t[2][1], transparent=()):
-                    v = None
-                    if o.kind == "agg":
-                        rv = mir.rv_at(o.fn, *o.data); v = rv[1].get("variant")
-                    if v not in ("UInt", "Str"): bad.append("%s bb%d: %r" % (g.path, bi, o))
+                srcs = [(g, t[2][1])]
+                # `.map(|seg| Component::..).try_for_each(|component| schema.push_build(component))`: the pushed value is the element
+                # the upstream map closure built
+                if g.kind == "closure" and all(o.kind == "param" and o.data >= 2 for o in mir.trace_op(g, t[2][1], transparent=())):
+                    up = mir.pipeline_element_sources(F, g)
+                    if up: srcs = up
+                for g2, op2 in srcs:
+                    for o in mir.trace_op(g2, op2, transparent=()):
+                        v = None
+                        if o.kind == "agg":
+                            rv = mir.rv_at(o.fn, *o.data); v = rv[1].get("variant")
+                        if v not in ("UInt", "Str"): bad.append("%s bb%d: %r" % (g.path, bi, o))
     return n >= 2 and not bad, "%d schema pushes, all of Component::UInt/Str literals (never a Var, so placement validation cannot fail)%s" % (n, (" except " + str(bad)) if bad else "")
 
 def q_semver_dup_guard(F, cg, rep):
